@@ -10,10 +10,18 @@
 
    The binary Micheline codec is Codec/MichelineBin.v ([enc], [dec_full]).  [dec_full] runs on
    fuel that Proofs/MichelineBin_proofs.v shows sufficient; running out of it is mapped to
-   rejection here and excluded in the theorems.  Definitions only. *)
-From Coq Require Import List ZArith Bool.
+   rejection here and excluded in the theorems.
+
+   Second half: the SPECIFICATION of the optimized tree, written independently of [to_mich] as a
+   relation [Opt] (what Tezos' unparse_data produces in Optimized mode: domain values in their
+   binary forms of Codec/Domain.v, timestamps as integers, right combs by the rule 2 / 3 / >= 4
+   leaves, lambda bodies with the literals of PUSH instructions optimized too: [opt_code]).
+   pytezos leaves lambda bodies as they are (LambdaType.to_micheline_value ignores the mode —
+   known finding C04/lambda-push); [lambda_plain] is the class of values not affected.
+   Definitions only. *)
+From Coq Require Import List ZArith NArith Bool.
 From Coq.Strings Require Import Byte.
-From PV Require Import Base.Bytes Base.Result Codec.Micheline Codec.MichelineBin Michelson.Values.
+From PV Require Import Base.Bytes Base.Result Codec.Micheline Codec.MichelineBin Codec.Prims Codec.Domain Michelson.Values.
 Import ListNotations.
 
 Section Pack.
@@ -45,3 +53,142 @@ Section Pack.
   Definition unpack_instr (t : ty) (bs : bytes) : val :=
     match unpack t bs with Ok v => VSome v | Reject => VNone end.
 End Pack.
+
+(* ---------------------------------------------------------------- specification of the optimized tree *)
+
+(* Michelson type expressions (inside PUSH) *)
+Definition ty_of_prim (tag : byte) (ts : list ty) : option ty :=
+  match ts with
+  | [] =>
+      match tag with
+      | x6c => Some TUnit | x78 => Some TNever | x59 => Some TBool | x5b => Some TInt | x62 => Some TNat
+      | x6a => Some TMutez | x6b => Some TTimestamp | x68 => Some TString | x69 => Some TBytes
+      | x82 => Some TBlsFr | x80 => Some TBlsG1 | x81 => Some TBlsG2 | x8d => Some TChest | x8e => Some TChestKey
+      | x6e => Some TAddress | x94 => Some TTxr | x5c => Some TKey | x5d => Some TKeyHash
+      | x67 => Some TSignature | x74 => Some TChainId | x6d => Some TOperation
+      | _ => None
+      end
+  | [a] =>
+      match tag with
+      | x63 => Some (TOption a) | x5f => Some (TList a) | x66 => Some (TSet a) | x5a => Some (TContract a)
+      | x87 => Some (TTicket a)
+      | _ => None
+      end
+  | [a; b] =>
+      match tag with
+      | x64 => Some (TOr a b) | x65 => Some (TPair a b) | x60 => Some (TMap a b) | x5e => Some (TLambda a b)
+      | x61 => Some (TBigMap a b)
+      | _ => None
+      end
+  | a :: rest =>
+      match tag with
+      | x65 => Some (TPair a ((fix comb (l : list ty) : ty :=
+                                 match l with
+                                 | [] => TUnit
+                                 | [x] => x
+                                 | x :: r => TPair x (comb r)
+                                 end) rest))
+      | _ => None
+      end
+  end.
+
+Fixpoint ty_of_node (n : node) : option ty :=
+  match n with
+  | NPrim tag args _ =>
+      match (fix go (l : list node) : option (list ty) :=
+               match l with
+               | [] => Some []
+               | x :: r => match ty_of_node x, go r with
+                           | Some t, Some ts => Some (t :: ts)
+                           | _, _ => None
+                           end
+               end) args with
+      | Some ts => ty_of_prim tag ts
+      | None => None
+      end
+  | _ => None
+  end.
+
+(* the leaves of a right comb, as values *)
+Fixpoint spine (v : val) : list val :=
+  match v with
+  | VPair a b => a :: spine b
+  | _ => [v]
+  end.
+
+(* "combs of four or more elements become sequences" *)
+Definition comb_shape (leaves : list node) : node :=
+  match leaves with
+  | [a; b] => NPrim T_Pair [a; b] []
+  | [a; b; c] => NPrim T_Pair [a; NPrim T_Pair [b; c] []] []
+  | _ => NSeq leaves
+  end.
+
+Section Spec.
+  Variable C : codec.
+  Variable lam_norm : node -> result node.
+
+  (* code in optimized form: the literal of every PUSH is parsed at the pushed type and rendered
+     in optimized mode (instructions and sequences are traversed; anything else is left alone) *)
+  Fixpoint opt_code (n : node) : node :=
+    match n with
+    | NPrim tag args annots =>
+        if byte_eqb tag T_PUSH then
+          match args with
+          | [tyn; lit] =>
+              match ty_of_node tyn with
+              | Some t =>
+                  match of_mich C lam_norm t lit with
+                  | Ok v => NPrim tag [tyn; to_mich C Optimized v] annots
+                  | Reject => n
+                  end
+              | None => n
+              end
+          | _ => n
+          end
+        else NPrim tag ((fix go (l : list node) : list node :=
+                           match l with [] => [] | x :: r => opt_code x :: go r end) args) annots
+    | NSeq l => NSeq ((fix go (l : list node) : list node :=
+                         match l with [] => [] | x :: r => opt_code x :: go r end) l)
+    | _ => n
+    end.
+
+  Inductive Opt : val -> node -> Prop :=
+  | OUnit : Opt VUnit (NPrim T_Unit [] [])
+  | OBool b : Opt (VBool b) (NPrim (if b then T_True else T_False) [] [])
+  | OInt z : Opt (VInt z) (NInt z)
+  | OTimestamp z : Opt (VTimestamp z) (NInt z)
+  | OBlsFr z : Opt (VBlsFr z) (NByt (N_to_le 32 (Z.to_N z)))
+  | OString s : Opt (VString s) (NStr s)
+  | OBytes b : Opt (VBytes b) (NByt b)
+  | OAddr a ep :
+      Opt (VAddr a ep) (NByt (forge_contract (a, match ep with Some e => e | None => default_ep end)))
+  | OKey k : Opt (VKey k) (NByt (forge_public_key k))
+  | OKeyHash a : Opt (VKeyHash a) (NByt (forge_key_hash a))
+  | OSig raw : Opt (VSig raw) (NByt raw)
+  | OChainId c : Opt (VChainId c) (NByt (forge_chain_id c))
+  | ONone : Opt VNone (NPrim T_None [] [])
+  | OSome v n : Opt v n -> Opt (VSome v) (NPrim T_Some [n] [])
+  | OLeft v n : Opt v n -> Opt (VLeft v) (NPrim T_Left [n] [])
+  | ORight v n : Opt v n -> Opt (VRight v) (NPrim T_Right [n] [])
+  | OPair a b ns : Forall2 Opt (spine (VPair a b)) ns -> Opt (VPair a b) (comb_shape ns)
+  | OList l ns : Forall2 Opt l ns -> Opt (VList l) (NSeq ns)
+  | OMap l ns :
+      Forall2 (fun e n => exists nk nv, Opt (fst e) nk /\ Opt (snd e) nv /\ n = NPrim T_Elt [nk; nv] []) l ns ->
+      Opt (VMap l) (NSeq ns)
+  | OLambda c : Opt (VLambda c) (opt_code c).
+
+  (* values whose lambda bodies are already in optimized form (complement of the class of the
+     known finding: no PUSH of a literal with a distinct optimized form inside a lambda) *)
+  Fixpoint lambda_plain (v : val) : bool :=
+    match v with
+    | VLambda c => node_eqb (opt_code c) c
+    | VSome a | VLeft a | VRight a => lambda_plain a
+    | VPair a b => lambda_plain a && lambda_plain b
+    | VList l => (fix go (l : list val) : bool :=
+                    match l with [] => true | x :: r => lambda_plain x && go r end) l
+    | VMap l => (fix go (l : list (val * val)) : bool :=
+                   match l with [] => true | (k, x) :: r => lambda_plain k && lambda_plain x && go r end) l
+    | _ => true
+    end.
+End Spec.
